@@ -103,6 +103,9 @@ pub fn normalize(raw: &Case, opts: &NormOpts) -> Case {
     if multi_phase {
         case.cfg.root_holds = true;
     }
+    // callers of earlier phases may still be inside a call when a later phase runs: count users over all phases
+    let all_callers: Vec<Vec<Op>> = case.phases.iter().flat_map(|p| p.callers.iter().cloned()).collect();
+    let all_users = object_users(&all_callers, objects);
     for ph in case.phases.iter_mut() {
         // the pool maximum in force during this phase decides which pool-0 scope rules apply
         for act in ph.root.iter() {
@@ -144,7 +147,7 @@ pub fn normalize(raw: &Case, opts: &NormOpts) -> Case {
         // With no pool thread, awaiting a future only makes progress if the awaiting task itself can run the queue,
         // which the library promises only when no other context is using the object (C07's scope): at pool 0 a
         // future is awaited / polled only on objects that a single caller uses.
-        let users = object_users(&ph.callers, objects);
+        let users = all_users.clone();
         for (ci, ops) in ph.callers.iter().enumerate() {
             let mut held = vec![true; objects];
             let mut slots: [Option<SlotInfo>; NSLOTS] = [None; NSLOTS];
